@@ -1,6 +1,17 @@
 ------------------------------ MODULE Grammar ------------------------------
-(* parser.go transcribed rule by rule into combinator terms, run by the operational *)
-(* combinator semantics over a token list; tree builders of transformer.go.         *)
+(* The calc grammar (property C07).  Three parts:                                    *)
+(*  1. parser.go transcribed rule by rule into combinator terms (with named          *)
+(*     references for the recursion), run by the operational combinator semantics    *)
+(*     over token records; Wrap and the tree builders of transformer.go.             *)
+(*  2. Print: the documented-grammar printer, tree -> token sequence, using only the *)
+(*     documented rules (five binary levels, left-associative, unary tighter and not *)
+(*     nestable without parentheses, indexing tightest, function literals lowest,    *)
+(*     statements end at a newline, braces for multi-statement bodies and to protect *)
+(*     a dangling else), with two token-level layouts: redundant parentheses around  *)
+(*     every subexpression, and blank lines inside blocks and array literals.        *)
+(*  3. The round-trip theorem Parse(PrintTree(t, layout)) = t, checked by TLC on every   *)
+(*     tree of the cases file, which also carries token lists of arbitrary texts for *)
+(*     accept/reject + tree comparison with the real parser.                         *)
 EXTENDS Integers, Sequences, TLC, Json, FiniteSets
 CONSTANT CasesFile
 Cases == ndJsonDeserialize(CasesFile)
@@ -181,9 +192,92 @@ Run(p, T, st) ==
                        IF ~r.ok THEN R(FALSE, <<>>, r.st)
                        ELSE LET b == Build(p.f, r.nodes) IN R(b.ok, b.nodes, r.st)
 Parse(T) == Run(Ref("program"), T, [pos |-> 0, snaps |-> <<>>])
-VARIABLES ci, done
-Init == ci \in 1..Len(Cases) /\ done = FALSE
+
+-----------------------------------------------------------------------------
+(* The documented-grammar printer.  lay: "plain" | "parens" | "eols" *)
+Tk(k, v, lit) == [k |-> k, v |-> v, lit |-> lit]
+NmT(x) == Tk("Name", x, 0)
+StT(x) == Tk("Sticky", x, 0)
+NsT(x) == Tk("NS", x, 0)
+EolT == Tk("EOL", "#eol", 0)
+EofT == Tk("EOF", "#eof", 0)
+StickyChars == {"+", "*", "/", "=", "<", ">", "!", "-", "&", "|", "#", "%", "~"}
+OpT(x) == IF x = ":" THEN NsT(x) ELSE StT(x)
+Level(op) == CASE op \in {"&&", "||"} -> 0 [] op \in {"<", ">", "<=", ">=", "==", "!="} -> 1 [] op \in {"&", "|"} -> 2
+               [] op \in {"+", "-"} -> 3 [] OTHER -> 4
+Paren(ts) == <<NsT("(")>> \o ts \o <<NsT(")")>>
+RECURSIVE OpenIf(_)
+OpenIf(n) == CASE n.t = "if" -> TRUE [] n.t = "ifelse" -> OpenIf(n.el) [] n.t \in {"while", "for"} -> OpenIf(n.body)
+               [] n.t = "assign" -> OpenIf(n.e) [] n.t \in {"ret", "yield"} -> OpenIf(n.e) [] n.t = "fn" -> OpenIf(n.body)
+               [] n.t = "bin" -> OpenIf(n.r) [] n.t = "un" -> OpenIf(n.x) [] OTHER -> FALSE
+RECURSIVE PrE(_, _, _), PrS(_, _), PrB(_, _, _, _), PrList(_, _, _, _)
+\* comma separated expressions (sep may be followed by blank lines in array literals)
+PrList(es, i, lay, inArray) ==
+  IF i > Len(es) THEN <<>>
+  ELSE PrE(es[i], -1, lay) \o (IF i < Len(es) THEN <<NsT(",")>> \o (IF inArray /\ lay = "eols" THEN <<EolT>> ELSE <<>>) ELSE <<>>) \o PrList(es, i + 1, lay, inArray)
+\* raw expression tokens and binding level of node n
+Raw(n, lay) ==
+  CASE n.t = "bin" -> LET L == Level(n.op) IN [lv |-> L, ts |-> PrE(n.l, L, lay) \o <<OpT(n.op)>> \o PrE(n.r, L + 1, lay)]
+    [] n.t = "un" -> [lv |-> 5, ts |-> <<StT(n.op)>> \o PrE(n.x, 6, lay)]
+    [] n.t = "ix1" -> [lv |-> 7, ts |-> PrE(n.a, 7, lay) \o <<NsT("[")>> \o PrE(n.i, -1, lay) \o <<NsT("]")>>]
+    [] n.t = "ix2" -> [lv |-> 7, ts |-> PrE(n.a, 7, lay) \o <<NsT("[")>> \o PrE(n.i, -1, lay) \o <<NsT(":")>> \o PrE(n.j, -1, lay) \o <<NsT("]")>>]
+    [] n.t = "int" -> [lv |-> 8, ts |-> <<Tk("Int", "#int", n.v)>>]
+    [] n.t = "float" -> [lv |-> 8, ts |-> <<Tk("Float", "#float", n.v)>>]
+    [] n.t = "str" -> [lv |-> 8, ts |-> <<Tk("Str", "#str", n.v)>>]
+    [] n.t = "bool" -> [lv |-> 8, ts |-> <<NmT(IF n.v THEN "true" ELSE "false")>>]
+    [] n.t = "name" -> [lv |-> 8, ts |-> <<NmT(n.n)>>]
+    [] n.t = "list" -> [lv |-> 8, ts |-> <<NsT("[")>> \o (IF lay = "eols" THEN <<EolT, EolT>> ELSE <<>>) \o PrList(n.e, 1, lay, TRUE) \o <<NsT("]")>>]
+    [] n.t = "call" -> [lv |-> 8, ts |-> <<NmT(n.name.n), NsT("(")>> \o PrList(n.args, 1, lay, FALSE) \o <<NsT(")")>>]
+    [] n.t = "fn" -> [lv |-> -1, ts |-> <<NsT("(")>> \o
+                          [i \in 1..(IF Len(n.params) = 0 THEN 0 ELSE 2 * Len(n.params) - 1) |-> IF i % 2 = 1 THEN NmT(n.params[(i + 1) \div 2]) ELSE NsT(",")]
+                          \o <<NsT(")"), StT("->")>> \o PrB(n.body, FALSE, FALSE, lay)]
+PrE(n, minp, lay) ==
+  LET r == Raw(n, lay)
+      \* redundant parentheses around every operator/index/literal subexpression (not around function literals: they are parenthesised only where required)
+      r2 == IF lay = "parens" /\ n.t # "fn" THEN [lv |-> 8, ts |-> Paren(r.ts)] ELSE r
+  IN IF r2.lv < minp THEN Paren(r2.ts) ELSE r2.ts
+\* body position
+PrB(n, afterExpr, beforeElse, lay) ==
+  IF n.t = "block"
+  THEN LET RECURSIVE Sts(_)
+           Sts(i) == IF i > Len(n.ss) THEN <<>> ELSE PrS(n.ss[i], lay) \o <<EolT>> \o (IF lay = "eols" THEN <<EolT>> ELSE <<>>) \o Sts(i + 1)
+       IN <<NsT("{"), EolT>> \o (IF lay = "eols" THEN <<EolT>> ELSE <<>>) \o Sts(1) \o <<NsT("}")>>
+  ELSE LET ts == PrS(n, lay) IN
+       IF (afterExpr /\ ts[1].v \in {"[", "(", "-"}) \/ (beforeElse /\ OpenIf(n))
+       THEN <<NsT("{"), EolT>> \o ts \o <<EolT, NsT("}")>> ELSE ts
+RECURSIVE Names(_, _)
+Names(vs, i) == IF i > Len(vs) THEN <<>> ELSE <<NmT(vs[i].n)>> \o (IF i < Len(vs) THEN <<NsT(",")>> ELSE <<>>) \o Names(vs, i + 1)
+PrS(n, lay) ==
+  CASE n.t = "assign" -> <<NmT(n.tgt.n), StT("=")>> \o PrE(n.e, -1, lay)
+    [] n.t = "if" -> <<NmT("if")>> \o PrE(n.c, -1, lay) \o PrB(n.th, TRUE, FALSE, lay)
+    [] n.t = "ifelse" -> <<NmT("if")>> \o PrE(n.c, -1, lay) \o PrB(n.th, TRUE, TRUE, lay) \o <<NmT("else")>> \o PrB(n.el, FALSE, FALSE, lay)
+    [] n.t = "while" -> <<NmT("while")>> \o PrE(n.c, -1, lay) \o PrB(n.body, TRUE, FALSE, lay)
+    [] n.t = "for" -> <<NmT("for")>> \o Names(n.vars, 1) \o <<StT("<-")>> \o PrList(n.iters, 1, lay, FALSE) \o PrB(n.body, TRUE, FALSE, lay)
+    [] n.t = "ret" -> <<NmT("return")>> \o PrE(n.e, -1, lay)
+    [] n.t = "yield" -> <<NmT("yield")>> \o PrE(n.e, -1, lay)
+    [] n.t = "block" -> PrB(n, FALSE, FALSE, lay)
+    [] OTHER -> PrE(n, -1, lay)
+PrintTree(n, lay) == PrS(n, lay) \o <<EolT, EofT>>
+Layouts == {"plain", "parens", "eols"}
+
+VARIABLES ci, done, thm
+vars == <<ci, done, thm>>
+Init == ci \in 1..Len(Cases) /\ done = FALSE /\ thm = TRUE
+\* a case is either [id, tree] (round trip) or [id, toks] (token list of an arbitrary text)
+IsTree == "tree" \in DOMAIN Cases[ci]
+RoundTrip(lay) == LET r == Parse(PrintTree(Cases[ci].tree, lay)) IN r.ok /\ r.nodes = <<Cases[ci].tree>> /\ r.st.snaps = <<>>
+\* (deep recursive operators are evaluated inside the action, i.e. on TLC's worker threads)
 Next == /\ ~done /\ done' = TRUE /\ UNCHANGED ci
-        /\ LET r == Parse(Cases[ci].toks) IN
-           PrintT("OBS " \o ToJson([id |-> Cases[ci].id, ok |-> r.ok, ast |-> IF r.ok THEN r.nodes ELSE <<>>, bal |-> r.st.snaps = <<>>]))
+        /\ IF IsTree
+           THEN LET rt == [l \in Layouts |-> RoundTrip(l)] IN
+                /\ thm' = \A l \in Layouts : rt[l]
+                /\ PrintT("OBS " \o ToJson([id |-> Cases[ci].id, plain |-> PrintTree(Cases[ci].tree, "plain"), parens |-> PrintTree(Cases[ci].tree, "parens"),
+                                             eols |-> PrintTree(Cases[ci].tree, "eols"), rt |-> rt]))
+           ELSE LET r == Parse(Cases[ci].toks) IN
+                /\ thm' = (r.st.snaps = <<>>)
+                /\ PrintT("OBS " \o ToJson([id |-> Cases[ci].id, ok |-> r.ok, ast |-> IF r.ok THEN r.nodes ELSE <<>>, bal |-> r.st.snaps = <<>>]))
+Spec == Init /\ [][Next]_vars
+\* the round-trip theorem of the documented grammar on every tree of the cases file and every token-level layout;
+\* for token-list cases: the parser model leaves no snapshot open
+RoundTripTheorem == thm
 =============================================================================
